@@ -1,9 +1,74 @@
-//! STUB component for xsdt -- to be written
+//! component 10: XSDT.  Case vocabulary documented in coq/theories/Spec/XsdtS.v.
 use crate::sx::*;
+use crate::tcommon::*;
 use crate::Emit;
+use acpi_tables::xsdt::XSDT;
 
-pub fn run(_case: &Sx, _out: &mut Vec<Ev>) {
-    panic!("harness: component xsdt not implemented")
+pub fn run(case: &Sx, out: &mut Vec<Ev>) {
+    let c = case.list();
+    let ctor = c[0].list();
+    let (oem, tbl, rev) = hdr_args(ctor);
+    let mut t = XSDT::new(oem, tbl, rev);
+    for op in &c[1..] {
+        if let Sx::A(_) = op {
+            out.push(image(&t));
+            continue;
+        }
+        let o = op.list();
+        match o[0].num() {
+            1 => t.add_entry(o[1].num()),
+            _ => panic!("harness: bad xsdt op"),
+        }
+        out.push(Ev::Num(0));
+    }
 }
 
-pub fn gen(_tier: &str, _rng: &mut Rng, _emit: &mut Emit) {}
+fn rand_op(rng: &mut Rng) -> Sx {
+    l(vec![a(1), a(rng.val(64))])
+}
+
+pub fn gen(tier: &str, rng: &mut Rng, emit: &mut Emit) {
+    // empty history
+    for _ in 0..4 {
+        let c = l(rand_hdr(rng));
+        emit.case(10, history(rng, c, vec![]));
+    }
+    // the one op kind alone (full-range and boundary values), and pairs
+    for v in [0u64, 1, 0xff, 0x100, 0xffff_ffff, 0x1_0000_0000, u64::MAX - 1, u64::MAX, 0x0102_0304_0506_0708] {
+        let c = l(rand_hdr(rng));
+        emit.case(10, history(rng, c, vec![l(vec![a(1), a(v)])]));
+    }
+    for _ in 0..12 {
+        let c = l(rand_hdr(rng));
+        let op = rand_op(rng);
+        emit.case(10, history(rng, c, vec![op]));
+    }
+    for _ in 0..8 {
+        let c = l(rand_hdr(rng));
+        let ops = vec![rand_op(rng), rand_op(rng)];
+        emit.case(10, history(rng, c, ops));
+    }
+    // homogeneous runs: 300 entries (length byte carries 255 -> 256) and 8 200 entries (65535 -> 65536 bytes)
+    for n in [300usize, 8200] {
+        let c = l(rand_hdr(rng));
+        let ops = (0..n).map(|_| rand_op(rng)).collect();
+        emit.case(10, history(rng, c, ops));
+    }
+    // all-zero and all-ones entries (the checksum delta of the entry is 0 / maximal)
+    for v in [0u64, u64::MAX] {
+        let c = l(rand_hdr(rng));
+        let ops = (0..300).map(|_| l(vec![a(1), a(v)])).collect();
+        emit.case(10, history(rng, c, ops));
+    }
+    let n = if tier == "thorough" { 3000 } else { 200 };
+    for _ in 0..n {
+        let c = l(rand_hdr(rng));
+        let len = match rng.below(3) {
+            0 => rng.range(1, 6),
+            1 => rng.range(1, 24),
+            _ => rng.range(25, 120),
+        };
+        let ops = (0..len).map(|_| rand_op(rng)).collect();
+        emit.case(10, history(rng, c, ops));
+    }
+}
